@@ -17,7 +17,7 @@ oracle of the DECLARED domain (exact decimal arithmetic on the arguments the obj
     value the objective received (==, same type; floats: exact equality).
 
 Mutations of optuna this check must catch. M1-M7 were applied one at a time to a scratch copy and run with
-`VF_REPO=<scratch> ./check C10 --tier quick`; every one ends with exit 1 and these violation keys (history
+`VF_REPO=<scratch> VF_CONFIGS=mem[,jfile-sym] ./check C10 --tier quick`; every one is reported with these violation keys (history
 suffix omitted where all five histories fire):
   M1 optuna/_transform.py::_untransform_numerical_param, stepped floats: np.clip dropped
      (`param = float(np.round((t - low) / step) * step + low)`)
@@ -38,10 +38,16 @@ suffix omitted where all five histories fire):
   M7 optuna/trial/_trial.py::Trial._is_relative_param: `return True` (the _contains check on the relative value dropped)
      -> "QMCSampler|Float|above-high|history=different-range", "QMCSampler|Float step|off-grid|history=different-range",
         "QMCSampler|Int step|off-grid|history=different-range", "QMCSampler|Int log|above-high|history=different-range"
-Deliberately NOT violations of C10 (tried, silent, as they should be): np.floor instead of np.round in TPE's discrete
-truncated normal with the clip kept (values stay members of the domain, only the distribution is skewed); dropping the
-second clip in _ParzenEstimator._untransform for ints; NSGA-II's `_is_contained` retry loop removed (Trial._is_relative_param
-rejects the child and samples independently).
+Not violations of C10, so silence is the right answer: np.floor instead of np.round in TPE's discrete truncated normal
+with the clip kept (tried: silent; values stay members of the domain, only the distribution is skewed). By reading only,
+not tried: dropping the second clip in _ParzenEstimator._untransform for ints (the truncation bounds already keep the
+rounded value inside), removing NSGA-II's `_is_contained` retry loop (Trial._is_relative_param rejects the child and
+samples independently).
+
+Finding on the unmodified tree (kept reported, class "Categorical eq-ambiguous"): choices that are ==-equal but of
+different types, e.g. suggest_categorical("x", (True, 1)): the objective receives 1, CategoricalDistribution.to_internal_repr
+uses tuple.index() and records index 0, study.trials[i].params["x"] reads back True (every sampler, every storage; the
+code comment in to_internal_repr accepts this). Minimal: RandomSampler(seed=0), no history, InMemoryStorage, trial 0.
 """
 from __future__ import annotations
 
@@ -104,22 +110,24 @@ _MISSING = object()
 # ---------------------------------------------------------------------------------------------
 # the lattice
 # ---------------------------------------------------------------------------------------------
-def _vals(mants: tuple, exps: tuple) -> list[str]:
+QUICK_ME = ((1, -3), (1, -1), (3, -1), (1, 0), (3, 0), (1, 3))  # 1e-3, 0.1, 0.3, 1, 3, 1e3
+THOROUGH_ME = tuple((m, e) for m in (1, 3, 7) for e in (-3, -1, 0, 1, 3))
+
+
+def _vals(me: tuple) -> list[str]:
     """Decimal literals +-m*10^e and 0, sorted by value (strings: the declared, exact numbers)."""
     out = {"0"}
-    for m in mants:
-        for e in exps:
-            out.add(f"{m}e{e}")
-            out.add(f"-{m}e{e}")
+    for m, e in me:
+        out.add(f"{m}e{e}")
+        out.add(f"-{m}e{e}")
     return sorted(out, key=lambda s: Fraction(s))
 
 
 def lattice(tier: str) -> list[tuple]:
     if tier == "quick":
-        mants, exps, pool = (1, 3), (-3, -1, 0, 3), CHOICE_POOL_QUICK
+        vals, pool = _vals(QUICK_ME), CHOICE_POOL_QUICK
     else:
-        mants, exps, pool = (1, 3, 7), (-3, -1, 0, 1, 3), CHOICE_POOL_THOROUGH
-    vals = _vals(mants, exps)
+        vals, pool = _vals(THOROUGH_ME), CHOICE_POOL_THOROUGH
     specs: list[tuple] = []
     # floats, linear: no step and every step, low < high and low == high
     for i, lo in enumerate(vals):
@@ -775,7 +783,7 @@ def run(tier: str, replay: str | None = None) -> int:
     pmap(ctx, task_fn, tasks)
     ctx.cov.update({f"lattice_{k}": v for k, v in info.items()})
     ctx.assumptions += [
-        "nothing is claimed off the lattice: low/high in {+-m*10^e} u {0} with m in {1,3} e in {-3,-1,0,3} (quick) / "
+        "nothing is claimed off the lattice: low/high in {0, +-1e-3, +-0.1, +-0.3, +-1, +-3, +-1e3} (quick) / {+-m*10^e} u {0} with "
         "m in {1,3,7} e in {-3,-1,0,1,3} (thorough), float steps {0.1,0.3,0.25,1,7,1e-3}, log floats over the positive "
         "values plus [1,1+1e-9], [1,1.0000001], [1-1e-9,1]; ints over the integral lattice values with steps 1/2/3/7 and "
         "log; categoricals = every ordered tuple of 1..3 distinct members of (None,True,1,1.5,'a') (quick) / "
